@@ -85,6 +85,7 @@ type Outcome struct {
 	Forks      int
 	Queries    int
 	Stretched  int // queries asked again with a stretched timeout (solver starved of CPU)
+	Second     int // obligations handed to the second solver release after the first gave up
 	SolverS    float64
 	WallS      float64
 	Funcs      []string
@@ -166,6 +167,7 @@ func runOne(p *symgo.Program, cfg Config, opt RunOpts) Outcome {
 	o2.WallS += o.WallS
 	o2.Queries += o.Queries
 	o2.Stretched += o.Stretched
+	o2.Second += o.Second
 	o2.SolverS += o.SolverS
 	return o2
 }
@@ -240,6 +242,7 @@ func runOnce(p *symgo.Program, cfg Config, opt RunOpts) (o Outcome) {
 	o.Instrs, o.Forks = in.Stats.Instrs, in.Stats.Forks
 	o.Queries, o.SolverS = sol.Queries, sol.Seconds
 	o.Stretched = sol.Stretched
+	o.Second = in.SecondSolver
 	o.Funcs = in.SortedFuncs()
 	for n := range in.Stats.Natives {
 		o.Natives = append(o.Natives, n)
